@@ -116,7 +116,12 @@ def judge(case):
                 if not L.weight.requires_grad: v("requires_grad", "layer weight does not require grad")
                 return outs, src
             T = sg.Tensor(np.full(s, 7.0, dtype=dt), requires_grad=case["rg"])
-            r = getattr(nn.init, init)(T, **A)
+            # the calling context varies from case to case: plain, inside no_grad (the usual idiom for re-initialising parameters),
+            # inside retain_grads - an initialiser fills the tensor and leaves its flags alone in all of them
+            import contextlib
+            ctx = {0: contextlib.nullcontext, 1: sg.no_grad, 2: sg.retain_grads}[int(harness.digest(case), 16) % 3]
+            with ctx():
+                r = getattr(nn.init, init)(T, **A)
             if r is not T: v("identity", "the initialiser did not return the tensor it was given")
             if tuple(T.shape) != s: v("shape", f"shape changed to {T.shape}")
             if T.dtype != np.dtype(dt): v("dtype", f"dtype changed to {T.dtype}")
@@ -196,7 +201,7 @@ def run(tier, seed):
         extra = real_generator_check()
     cov = {"evaluations": r["evaluations"], "distinct_nontrivial": r["distinct_nontrivial"],
            "rule": "initialisers x shapes (rank 1-%d over {1,2,3}; rank >= 2 for fan-based) x gains {1,.5,5/3,sqrt2} x modes x 8 "
-                   "nonlinearities x slopes {0,.2,sqrt5,-.5,-3} x dtypes x requires_grad; Linear/Conv1d/Conv2d constructors over a size "
+                   "nonlinearities x slopes {0,.2,sqrt5,-.5,-3} x dtypes x requires_grad, called plain / inside no_grad / inside retain_grads in rotation; Linear/Conv1d/Conv2d constructors over a size "
                    "lattice; each under the scripted random source with u in {0,1,1/2}, z in {0,+1,-1} and mixed per-element "
                    "patterns, recovering bounds/mean/std exactly; non-trivial = tensor has >= 2 elements" % (4 if tier == "quick" else 5),
            "samples": r["samples"], "exhaustive": True, "outcomes": r["outcomes"]}
